@@ -168,6 +168,19 @@ func (t *Type) UnmarshalJSON(buf []byte) error {
 				if err != nil {
 					return err
 				}
+				// ObjectWithOptionalAttrs panics if asked to mark an
+				// undeclared attribute as optional, so we must check
+				// that first, comparing names in normalized form as
+				// it does.
+				declared := make(map[string]struct{}, len(atys))
+				for name := range atys {
+					declared[NormalizeString(name)] = struct{}{}
+				}
+				for _, name := range optionals {
+					if _, ok := declared[NormalizeString(name)]; !ok {
+						return fmt.Errorf("optional attribute %q is not declared in the object type", name)
+					}
+				}
 				*t = ObjectWithOptionalAttrs(atys, optionals)
 			} else {
 				*t = Object(atys)
